@@ -187,6 +187,12 @@ def plan(tier):
     for di in range(len(MPS_DEFS)):
         for opts in ({}, {'timeline': '1'}):
             items.append({'mode': 'mps', 'def': di, 'opts': opts, 'tier': tier})
+    # defaults saved with the stream: a time line for every template, also those that have no SegmentTimeline support
+    for tmpl in ('hand_made', 'manifest_e', 'manifest_b', 'manifest_h', 'manifest_i', 'manifest_ef', 'manifest_n'):
+        items.append({'stream': 'bbb', 'template': tmpl, 'opts': {}, 'tier': tier, 'mode': 'vod', 'sdef': {'segmentTimeline': True}})
+        if tmpl != 'manifest_b':
+            items.append({'stream': 'bbb', 'template': tmpl, 'opts': {'start': 'explicit', 'depth': '30'}, 'tier': tier,
+                          'stride': 6 if tier != 'quick' else 48, 'sdef': {'segmentTimeline': True}})
     for stream, ref in (('bbb', 'bbb_a1'), ('bbb', 'bbb_t1'), ('synirr', 'synirr_a1')):
         for opts in ({'start': 'explicit', 'depth': '30'}, {'start': 'explicit', 'depth': '30', 'timeline': '1'}):
             items.append({'stream': stream, 'template': 'hand_made', 'opts': opts, 'tier': tier,
@@ -201,6 +207,8 @@ def execute_vod(item):
     url = crawl.manifest_url('vod', item['stream'], item['template'], item['opts'])
     rec = {'stream': item['stream'], 'template': item['template'], 'opts': item['opts'], 'now': crawl.iso(c01.NOON),
            'url': url, 'ref': None, 'mode': 'vod'}
+    if item.get('sdef_record'):
+        rec['sdef'] = item['sdef_record']
 
     def on_manifest(doc, r):
         timeline_gapless(acc, rec, doc)
@@ -309,7 +317,28 @@ def execute_mps(item):
     return acc
 
 
+def set_stream_defaults(w, stream, sdef):
+    with w.appctx():
+        st = w.models.Stream.get(directory=stream)
+        st.defaults = dict(sdef)
+        w.models.db.session.commit()
+        w.models.db.session.remove()
+
+
 def execute(item):
+    w = W.World.shared()
+    if item.get('sdef'):
+        # options that come from the defaults saved with the stream instead of the query string
+        w.begin_item()
+        set_stream_defaults(w, item['stream'], item['sdef'])
+        try:
+            return execute_(dict(item, sdef=None, sdef_record=item['sdef']))
+        finally:
+            w.reset()
+    return execute_(item)
+
+
+def execute_(item):
     if item.get('mode') == 'vod':
         return execute_vod(item)
     if item.get('mode') == 'mps':
@@ -354,6 +383,13 @@ def run(ctx):
 
 
 def replay(record):
+    if record.get('sdef'):
+        w = W.World.shared()
+        set_stream_defaults(w, record['stream'], record['sdef'])
+        try:
+            return replay({k: v for k, v in record.items() if k != 'sdef'})
+        finally:
+            w.reset()
     if record.get('mode') == 'mps':
         acc = execute_mps({'def': record['def'], 'opts': record['opts']})
         return [(s, v[0]['what']) for s, v in acc.viol.items() if s.startswith('C02|')]
